@@ -42,7 +42,7 @@ def run(rec, cfg):
     MR.attach_apply()
     rng = cfg.rng("c01")
     rules = MR.rule_instances()
-    n = cfg.scale(280, 30000)
+    n = cfg.scale(260, 30000)
     for src, text, hints in RC.start_texts(cfg, rng, n, equations=0.15):
         if cfg.out_of_time():
             rec.truncated = True
